@@ -4,7 +4,7 @@ from __future__ import annotations
 import ast
 
 from ..cfg import NORMAL, ALL, walk_local
-from ..facts import (cfg_of, call_name, calls_in, bind_args, targets_of,
+from ..facts import (runs_only_when, const_value, cfg_of, call_name, calls_in, bind_args, targets_of,
                      writers_of, local_assigns, resolve_local, guard_atoms,
                      is_attr, is_name, strip_await, attr_chain)
 from ..loader import txt, AnchorError
@@ -185,13 +185,23 @@ def _flag_guard(ctx, bs, f, cfg, n):
                             vals = [v for st, v in local_assigns(g, arg.id)
                                     if st is last]
                     good = bool(vals)
+                    gcfg2 = cfg_of(g)
+                    want = f'{txt(sel)}.readonly' if sel is not None else None
                     for v in vals:
-                        okv = False
+                        okv = const_value(v) == (True, False)
                         for v2 in resolve_local(g, v):
                             for aa, pp in guard_atoms(v2):
                                 if not pp and aa.endswith('.readonly') and (
-                                        sel is None or
-                                        aa == f'{txt(sel)}.readonly'):
+                                        want is None or aa == want):
+                                    okv = True
+                        # ... or the definition itself only runs when the
+                        # selection is not read-only
+                        if not okv and isinstance(arg, ast.Name):
+                            for st, vv in local_assigns(g, arg.id):
+                                if vv is v and want is not None and all(
+                                        runs_only_when(gcfg2, nd, want, False)
+                                        for nd in gcfg2.nodes_of(st)) and \
+                                        gcfg2.nodes_of(st):
                                     okv = True
                         good = good and okv
                     if not good:
